@@ -171,6 +171,8 @@ Definition strip_nl (s : text) : text := match rev s with 10 :: r => rev r | _ =
 
 (** ---------- parse_gmt_offset / gmt_offset ---------- *)
 Definition int_max_str_digits : N := 4300.
+(** value of a run of ASCII digits, most significant first *)
+Definition horner (ds : text) : N := fold_left (fun a c => a * 10 + dval c) ds 0.
 (** [int(hours)] for a text over [0-9+-]: one optional sign, then at least one and at most 4300 digits *)
 Definition pyint (hours : text) : option Z :=
   let '(neg, ds) := match hours with
@@ -178,12 +180,12 @@ Definition pyint (hours : text) : option Z :=
                     | 43 :: r => (false, r)
                     | _ => (false, hours)
                     end in
-  if forallb is_digit ds && (N.of_nat (List.length ds) <=? int_max_str_digits) then
-    match N_of_dec ds with
-    | Some n => Some (if neg then (- Z.of_N n)%Z else Z.of_N n)
-    | None => None
-    end
-  else None.
+  match ds with
+  | [] => None
+  | _ => if forallb is_digit ds && (N.of_nat (List.length ds) <=? int_max_str_digits)
+         then Some (if neg then (- Z.of_N (horner ds))%Z else Z.of_N (horner ds))
+         else None
+  end.
 Definition starts_minus (s : text) : bool := match s with 45 :: _ => true | _ => false end.
 Fixpoint tz_lookup (tzs : list (text * Z)) (name : text) : option Z :=
   match tzs with
@@ -294,7 +296,7 @@ Definition plain_digits (zeros : list N) (s : text) : bool := forallb (fun c => 
 Definition ref_num (s : text) : option Z :=
   match s with
   | [] => None
-  | _ => if forallb is_digit s then Some (fold_left (fun a c => a * 10 + Z.of_N (c - 48))%Z s 0%Z) else None
+  | _ => if forallb is_digit s then Some (Z.of_N (horner s)) else None
   end.
 Definition chomp (s : text) : text := if N.eqb (last s 0) 10 then removelast s else s.
 (** [offset[:name]]: signed hours, optionally one separator character and two minute digits, optionally :name;
